@@ -326,8 +326,9 @@ def check_C10(pid, tier, seed, verdict):
                V.sample_descrs(run["descr"]), True,
                dict(behaviours_generated=len(g["scenarios"]), behaviours_replayed=len(scs), trace_events=res["lines"],
                     event_counts=cnt))
-    return cov, ["the 30 s SYNACK timeout of Client::create_proxy_stream itself (a server that never answers) is not driven: "
-                 "it needs a scripted TLS server and 30 s of real time; the timeout outcome is covered at model level only",
+    return cov, ["the 30 s SYNACK timeout of Client::create_proxy_stream (never answered / answered after the timeout / duplicate "
+                 "answer / answer for an unknown id, against a scripted TLS server) costs 32 s of real time and runs in the "
+                 "thorough tier only; the quick tier covers the timeout outcome at model level",
                  "reason texts are not compared, only the verdict class"]
 
 
@@ -389,7 +390,8 @@ def check_C07(pid, tier, seed, verdict):
                "into two segments), HTTP CONNECT and a UDP association against the real server; the address the server is about "
                "to dial is reported by a cfg-guarded hook; non-trivial = scenarios with at least one dial or resolver answer judged",
                V.sample_descrs(run["descr"]), True, dict(trace_events=res["lines"], event_counts=cnt))
-    return cov, ["histories beyond the 60 s cache lifetime are covered by the model only (the cache uses std::time::Instant)",
+    return cov, ["a history that crosses the 60 s cache lifetime (real time: the cache uses std::time::Instant) runs in the thorough "
+                 "tier only; the quick tier covers it at model level",
                  "names other than localhost are made resolvable by pre-seeding the cache through a cfg-guarded hook"]
 
 
